@@ -31,6 +31,7 @@ type WeightedMerkleTrie struct {
 	tempDeleted [][]byte
 	created     [][]byte
 	saved       [][]byte // hashes put into the batch by the commit in progress
+	emptied     bool     // the last key was deleted and that is not committed yet (the empty root is never dirty)
 	sync.Mutex
 }
 
@@ -85,6 +86,7 @@ func (t *WeightedMerkleTrie) Update(key, value []byte, weight uint64) error {
 		t.root = n
 		if t.root == nil {
 			t.root = emptyNode
+			t.emptied = true
 		}
 	}
 	return nil
@@ -327,12 +329,13 @@ func (t *WeightedMerkleTrie) Rollback() {
 		t.created = nil
 	}
 	t.tempDeleted = nil
+	t.emptied = false
 	clear(t.deleted)
 }
 
 // DeleteNodes deletes the nodes from the underlying storage and sets nextDelete to the tempDeleted nodes collected in previous mutations
 func (t *WeightedMerkleTrie) DeleteNodes() error {
-	if t.root != nil && t.root.Dirty() {
+	if t.emptied || (t.root != nil && t.root.Dirty()) {
 		// Nodes superseded by changes that are not committed yet still belong to the
 		// last committed state: collect nothing until those changes are committed.
 		return nil
@@ -381,6 +384,7 @@ func (t *WeightedMerkleTrie) Weight() uint64 {
 // Commit collapses the trie to the specified level and returns the batcher and the deleted nodes, it is the caller's responsibility to commit the batch
 func (t *WeightedMerkleTrie) Commit(collapseLevel int) (storage.Batcher, error) {
 	batcher := t.db.NewBatch()
+	t.emptied = false
 	if !t.root.Dirty() {
 		return batcher, nil
 	}
@@ -452,6 +456,7 @@ func (t *WeightedMerkleTrie) RollbackTrie(node Node) {
 	}
 	t.created = nil
 	t.tempDeleted = nil
+	t.emptied = false
 	clear(t.deleted)
 }
 
@@ -467,6 +472,7 @@ func (t *WeightedMerkleTrie) Delete(key []byte) (uint64, error) {
 	t.root = node
 	if t.root == nil {
 		t.root = emptyNode
+		t.emptied = true
 	}
 	return change, nil
 }
